@@ -27,6 +27,9 @@ Further streams (search for failing inputs; the models see them through what was
    schedules in which another request stores the tiles between this request's look-up and its tile lock: the
    request returns what is stored for exactly (coord, TIME value), tiles at the same coordinate with another / no
    dimension value stay untouched.  Oracle only (the tile manager is not part of the C05 models).
+ * the dimensions argument is a dict: the oracle identifies addresses whose dimension dicts hold the same values in
+   another key order (`akey`); deterministic probes store / load / remove one address under two key orders
+   (`dimension_order_probes`, also as fixed cases of the `paths` correspondence).
 """
 import glob
 import itertools
